@@ -4,12 +4,14 @@ import (
 	"fmt"
 	"net"
 	"runtime"
+	"strings"
 	"sync"
 	"sync/atomic"
 	"time"
 
 	"github.com/netflix/rend/handlers/memcached/batched"
 	"github.com/netflix/rend/orcas"
+	"github.com/netflix/rend/verifshim/clusterproxyapp"
 	"github.com/netflix/rend/verifshim/memproxyapp"
 	"github.com/netflix/rend/verifshim/vflag"
 	"github.com/netflix/rend/verifshim/vnet"
@@ -256,4 +258,35 @@ func AppCfgs() []Cfg {
 		}
 	}
 	return out
+}
+
+// startClusterProxy runs app/memcached_cluster_proxy.go's program (source cluster = the given nodes,
+// no destination cluster) and returns the listener its accept loop reads from. stop ends the
+// program's accept loop and main.
+func startClusterProxy(stop chan struct{}, hosts []string, dial func(network, address string) (net.Conn, error)) (*appListener, string) {
+	l := &appListener{addr: fmt.Sprintf(":%d", appMainPort), ch: make(chan net.Conn), stop: stop, ready: make(chan struct{})}
+	problem := ""
+	vflag.Reset([]string{"-p", fmt.Sprint(appMainPort), "--source-hostnames", strings.Join(hosts, ","), "--destination-cluster-type", "noop", "--destination-hostnames", "unused:1"})
+	vnet.ListenHook = func(network, address string) (net.Listener, error) {
+		if network == "tcp" && address == l.addr {
+			return l, nil
+		}
+		problem = "listen on unexpected address " + network + " " + address
+		return nil, fmt.Errorf("verif: nothing to listen on at %s %s", network, address)
+	}
+	vnet.DialHook = dial
+	vsync.WaitHook = func() bool {
+		<-stop
+		runtime.Goexit()
+		return true
+	}
+	go clusterproxyapp.VerifRun()
+	t := time.NewTimer(time.Hour)
+	defer t.Stop()
+	select {
+	case <-l.ready:
+	case <-t.C:
+		problem += " the program never accepted on " + l.addr
+	}
+	return l, problem
 }
